@@ -249,18 +249,40 @@ func runC12(c *C12Case) ([]string, error) {
 				}
 			}
 		case "snap":
-			// image of the follower's directory as a crash would leave it: stop
-			// (Close does not flush the memstore), copy, start again
+			// image of the follower's directory as a crash would leave it (what is
+			// only in the memstore is lost, tables may sit at different offsets).
+			// With the adaptive flush timer pinned (NoTimer) a frozen follower has no
+			// writer, so its directory can be copied while it is up. Otherwise the
+			// follower is stopped for the copy (Close flushes: a clean image).
 			if f.Up() {
-				cl.StopFollower(f)
 				img := filepath.Join(root, fmt.Sprintf("image%d", op.F))
-				if err := copyDir(f.Dir, img); err != nil {
-					return sortedLabels(labels), fmt.Errorf("%w: copy: %v", errSetup, err)
+				if c.NoTimer {
+					prev, err := cl.FreezeFollower(f)
+					if err != nil {
+						return sortedLabels(labels), err
+					}
+					var cerr error
+					for attempt := 0; attempt < 3; attempt++ {
+						if cerr = copyDir(f.Dir, img); cerr == nil {
+							break
+						}
+					}
+					cl.Thaw(f, prev)
+					if cerr != nil {
+						return sortedLabels(labels), fmt.Errorf("%w: copy: %v", errSetup, cerr)
+					}
+					labels["crash-image-taken"] = true
+				} else {
+					cl.StopFollower(f)
+					if err := copyDir(f.Dir, img); err != nil {
+						return sortedLabels(labels), fmt.Errorf("%w: copy: %v", errSetup, err)
+					}
+					if err := restart(f); err != nil {
+						return sortedLabels(labels), err
+					}
+					labels["clean-image-taken"] = true
 				}
 				images[op.F] = img
-				if err := restart(f); err != nil {
-					return sortedLabels(labels), err
-				}
 				faultSeen = true
 			}
 		case "restore":
